@@ -119,7 +119,11 @@ class PbnParser(Parser):
             # game except the first game of the PBN file.
             match = re.fullmatch(self.REPLACE_PATTERN, line)
             if match and not self._in_comment:
-                yield self.parse_board()
+                game = self.parse_board()
+                # leading, trailing or consecutive empty lines do not
+                # delimit a game
+                if game:
+                    yield game
 
                 # initialization
                 self.tag_pair_buffer = list()
@@ -146,7 +150,9 @@ class PbnParser(Parser):
             self.extract_content(line)
 
         if len(self.tag_pair_buffer) != 0:
-            yield self.parse_board()
+            game = self.parse_board()
+            if game:
+                yield game
 
     # TODO: Consider type not IO[str] but IO[AnyStr]
     def parse_all(self, fp: IO[str]) -> List[Dict[str, str]]:
